@@ -41,6 +41,7 @@ from .tensor import MemArea
 from .tensor import MemType
 from .tensor import Tensor
 from .utils import progress_print
+from .weight_compressor import CompressedWeightCache
 
 
 class CompilerOptions:
@@ -158,6 +159,9 @@ def _check_schedule(nng, arch, scheduler_options):
 def compiler_driver(nng, arch, options, scheduler_options, network_type, output_basename, subgraph_output = False):
     assert verify_graph_health(nng)
     verbose_progress = scheduler_options.verbose_progress
+
+    # Encoded weights depend on the architecture and belong to the graph being compiled
+    CompressedWeightCache.cache.clear()
 
     # Pre-optimisation operator tracking
     for sg in nng.subgraphs:
